@@ -191,7 +191,7 @@ func (e *Explorer) Explore(prefix []string, devs int) {
 	if e.seenSig == nil {
 		e.seenSig = map[string]int{}
 	}
-	if e.Budget > 0 && e.Stats.Executions >= e.Budget {
+	if (e.Budget > 0 && e.Stats.Executions >= e.Budget) || Tainted {
 		e.Stats.Complete = false
 		return
 	}
